@@ -289,8 +289,8 @@ pub fn gen_action(r: &mut Rng, c: &Ctx, depth: u32, waiting: bool) -> String {
         30 if c.allow_custom => match r.below(8) {
             0 | 1 => (*r.pick(&["mlft", "mrgt", "mmid"])).to_string(),
             2 => (*r.pick(&["mltp", "mrtp"])).to_string(),
-            3 => format!("(mwheel-{} {} 120)", r.pick(&["up", "down"]), r.pick(&[5u32, 20, 50])),
-            4 => format!("(movemouse-{} {} 1)", r.pick(&["up", "left"]), r.pick(&[5u32, 20])),
+            3 => format!("(mwheel-{} {} 120)", r.pick(&["up", "down", "left", "right"]), r.pick(&[5u32, 20, 50])),
+            4 => format!("(movemouse-{} {} 1)", r.pick(&["up", "left", "down", "right"]), r.pick(&[5u32, 20])),
             5 => format!("(caps-word {})", r.pick(&[10u32, 50, 200])),
             6 => format!("(unicode {})", r.pick(&["x", "q"])),
             _ => (*r.pick(&["mlft", "mrgt"])).to_string(),
